@@ -132,6 +132,25 @@ zz = [0] + [int(x) for x in kl]
 if sorted(zz) != list(range(64)):
     die("jchuff.c: kloop order is not a permutation of 1..63")
 
+
+# ---------------------------------------------------------------- jcphuff.c: the correction-bit buffer of AC refinement scans
+consts["MAX_CORR_BITS"] = ev(define(jcphuff, "MAX_CORR_BITS", "jcphuff.c"), "MAX_CORR_BITS")
+m = re.search(r"entropy->EOBRUN\+\+;\s*entropy->BE \+= BR;\s*if \(entropy->EOBRUN == 0x7FFF \|\|\s*entropy->BE > \(([^;{}]*?)\)\)\s*emit_eobrun\(entropy\);", jcphuff)
+if not m:
+    die("jcphuff.c: flush test of encode_mcu_AC_refine not found")
+consts["CORR_FLUSH_THRESHOLD"] = ev(m.group(1), "correction-bit flush threshold")
+m = re.search(r"entropy->bit_buffer = \(char \*\)\s*\(\*cinfo->mem->alloc_small\) \(\(j_common_ptr\)cinfo, JPOOL_IMAGE,\s*([^;]*?) \* sizeof\(char\)\);", jcphuff)
+if not m:
+    die("jcphuff.c: allocation of bit_buffer not found")
+consts["CORR_BUFFER_SIZE"] = ev(m.group(1), "bit_buffer size")
+for pat, what in [(r"BR_buffer = entropy->bit_buffer \+ entropy->BE;", "BR_buffer start"),
+                  (r"if \(temp > 1\) \{\s*\\\s*BR_buffer\[BR\+\+\] = \(char\)\(temp & 1\);", "correction bit store"),
+                  (r"emit_buffered_bits\(entropy, BR_buffer, BR\);\s*\\\s*BR_buffer = entropy->bit_buffer;\s*\\\s*BR = 0;", "buffer reset after a flush"),
+                  (r"emit_buffered_bits\(entropy, entropy->bit_buffer, entropy->BE\);\s*entropy->BE = 0;", "emit_eobrun reset"),
+                  (r"int Sl = cinfo->Se - cinfo->Ss \+ 1;", "band length")]:
+    if not re.search(pat, re.sub(r"\n[ \t]*\\(?=\n)", "", jcphuff)):
+        die("jcphuff.c: %s no longer has the modelled form" % what)
+
 # ---------------------------------------------------------------- jcmaster.c
 jcm = strip_comments(rd("jcmaster.c"))
 m = re.search(r"int max_Ah_Al = cinfo->data_precision == (\d+) \? (\d+) : (\d+);", jcm)
@@ -614,7 +633,7 @@ for k in ["DCTSIZE", "DCTSIZE2", "MAX_COMPONENTS", "MAX_COMPS_IN_SCAN", "C_MAX_B
           "MAX_COEF_BITS_ADD", "DC_EXTRA_BITS", "AHAL_PREC", "MAX_AH_AL_HI", "MAX_AH_AL_LO", "LOSSLESS_PREC_MIN", "LOSSLESS_PREC_MAX",
           "LOSSY_PREC_A", "LOSSY_PREC_B", "RESTART_MAX", "PSV_MIN", "PSV_MAX", "QUANT_MIN", "QUANT_MAX", "QUANT_BASELINE_MAX",
           "QUALITY_MIN", "QUALITY_MAX", "SP_YCC_NCOMPS", "SP_YCC_NSCANS", "SP_BIG_MUL", "SP_ADD", "SP_MUL", "SP_SIZE_RULE",
-          "SP_ALLOC_GUARD", "SP_MIN_SLOTS", "DRI_RULE", "RAW_ADVANCE", "QS_NUM", "QS_BASE", "QS_MUL", "TJ_NUMPF", "MARKER_MAX_DATA", "DQT_INDEX_CHECK", "HUFF_TBLNO_CHECK_FIRST", "DIVISOR_CLAMP", "DIVISOR_CLAMPED_EVERYWHERE", "ZERO_QUANT_REJECTED",
+          "SP_ALLOC_GUARD", "SP_MIN_SLOTS", "DRI_RULE", "RAW_ADVANCE", "MAX_CORR_BITS", "CORR_FLUSH_THRESHOLD", "CORR_BUFFER_SIZE", "QS_NUM", "QS_BASE", "QS_MUL", "TJ_NUMPF", "MARKER_MAX_DATA", "DQT_INDEX_CHECK", "HUFF_TBLNO_CHECK_FIRST", "DIVISOR_CLAMP", "DIVISOR_CLAMPED_EVERYWHERE", "ZERO_QUANT_REJECTED",
           "NCOMP_CHECK_IN_VALIDATE", "REVALIDATE_AFTER_LOSSLESS", "MISSING_CODE_CHECK", "MISSING_ZRL_EOB_CHECK", "SIMD_RANGE_PRECHECK", "RESTART_CLAMP_DIRECT", "TJ_NUMSAMP", "TJ_NUMCS"]:
     out.append("Definition g_%s : Z := %d." % (k, consts[k]))
 out.append("\n(* zigzag order of encode_one_block: position 0 and the 63 kloop() arguments *)")
